@@ -306,6 +306,8 @@ impl RelationSet {
     }
 
     pub fn add_cycle(&mut self, r: Relation) {
+        #[cfg(yamaquasi_verif)]
+        crate::verif_hooks::relation_published(&self.n, &r);
         assert_eq!(r.cofactor, 1);
         self.n_cycles[min(self.n_cycles.len(), r.cyclelen as usize) - 1] += 1;
         self.cycles.push(r);
@@ -918,4 +920,40 @@ fn test_pack_relation() {
         ],
     };
     assert_eq!(PackedRelation::pack(r.clone()).unpack(), r);
+}
+
+// Accessors for the verification harness (no effect on the library's behaviour).
+#[cfg(yamaquasi_verif)]
+impl RelationSet {
+    /// Unpacked copies of the pending single-large-prime relations, sorted by key.
+    pub fn verif_partials(&self) -> Vec<(u64, Relation)> {
+        let mut v: Vec<(u64, Relation)> = self
+            .partial
+            .iter()
+            .map(|(&k, r)| (k, r.unpack()))
+            .collect();
+        v.sort_by_key(|&(k, _)| k);
+        v
+    }
+
+    /// Unpacked copies of the pending double-large-prime relations, in key order.
+    pub fn verif_doubles(&self) -> Vec<((u32, u32), Relation)> {
+        self.doubles.iter().map(|(&k, r)| (k, r.unpack())).collect()
+    }
+
+    /// The reverse index of pending double-large-prime relations, in key order.
+    pub fn verif_doubles_rev(&self) -> Vec<(u32, u32)> {
+        self.doubles_rev.iter().copied().collect()
+    }
+
+    /// Copy of the relations published so far.
+    pub fn verif_cycles(&self) -> Vec<Relation> {
+        self.cycles.clone()
+    }
+}
+
+/// Round trip of a relation through its compact storage form.
+#[cfg(yamaquasi_verif)]
+pub fn verif_pack_unpack(r: &Relation) -> Relation {
+    PackedRelation::pack(r.clone()).unpack()
 }
